@@ -8,6 +8,8 @@ os.makedirs(dst, exist_ok=True)
 shutil.copy(os.path.join(wt, "seed", "patch.diff"), os.path.join(dst, "patch.diff"))
 shutil.copy(os.path.join(wt, "seed", "seed_demo.rs"), os.path.join(dst, "seed_demo.rs"))
 meta = json.load(open(os.path.join(wt, "seed", "meta.json")))
+if os.path.exists(os.path.join(wt, "seed", "refactor.diff")):      # round F: refactoring alone (must be silent) + refactoring with a slip
+    shutil.copy(os.path.join(wt, "seed", "refactor.diff"), os.path.join(dst, "refactor.diff"))
 conf = {}
 for l in open(os.path.join(wt, "confirm.log")):
     if "=" in l and not l.startswith("=="):
@@ -18,6 +20,7 @@ for l in open(os.path.join(wt, "confirm.log")):
 out = {
     "property": meta.get("property"),
     "breaks": meta.get("summary"),
+    **({"refactoring": meta.get("refactoring")} if meta.get("refactoring") else {}),
     "needs_to_manifest": meta.get("needs"),
     "demo_cmd": meta.get("demo_cmd"),
     "origin": "independent sub-agent given only the property text and a scratch git worktree of /repo",
